@@ -422,6 +422,31 @@ def run(ctx):
                         ctx.fail('C19/subprocess', 'a real process prints something else than the in-process runner', inp, [p.returncode, p.stdout[:300], p.stderr[-300:]], res.output[:300])
                 if nondefault >= 2: ctx.nontrivial(json.dumps(argv))
                 if it < 2: ctx.sample({'argv': argv, 'exit': res.exit_code, 'model_call': mcall})
+        # ---------------- directed: `cls` on data with a deficit (observed statistic above the Asimov one), where q and q-tilde give different
+        # p-values for the same fits, and on an excess; default POI bounds and bounds reaching below zero; stdout and --output-file
+        for obs_ in ([38.0], [61.0]):
+            dws = {'channels': [{'name': 'SR', 'samples': [
+                {'name': 'signal', 'data': [10.0], 'modifiers': [{'name': 'mu', 'type': 'normfactor', 'data': None}]},
+                {'name': 'bkg', 'data': [50.0], 'modifiers': [{'name': 'sys', 'type': 'normsys', 'data': {'lo': 0.9, 'hi': 1.1}}]}]}],
+                'observations': [{'name': 'SR', 'data': obs_}], 'version': '1.0.0',
+                'measurements': [{'name': 'bounded', 'config': {'poi': 'mu', 'parameters': []}},
+                                 {'name': 'wide', 'config': {'poi': 'mu', 'parameters': [{'name': 'mu', 'bounds': [[-5.0, 10.0]], 'inits': [1.0]}]}}]}
+            (tmp / 'dws.json').write_text(json.dumps(dws))
+            for meas_ in ('bounded', 'wide'):
+                for ts_ in ('q', 'qtilde'):
+                    for tofile_ in (False, True):
+                        argv = ['cls', 'dws.json', '--measurement', meas_, '--test-stat', ts_] + (['--output-file', 'dout.json'] if tofile_ else [])
+                        res, _ = invoke(argv)
+                        ctx.count(); ctx.tally('directed_cls', f'{meas_}/{ts_}/{"deficit" if obs_[0] < 50 else "excess"}')
+                        inp = {'argv': argv, 'workspace': dws}
+                        if res.exit_code != 0:
+                            ctx.fail('C19/exit-status', 'cls failed on a one-bin counting workspace', inp, [res.exit_code, str(res.exception)[:200]], 0); continue
+                        got = json.loads((tmp / 'dout.json').read_text() if tofile_ else res.stdout)
+                        w_ = pyhf.Workspace(dws); mdl_ = w_.model(measurement_name=meas_, modifier_settings={'normsys': {'interpcode': 'code4'}, 'histosys': {'interpcode': 'code4p'}})
+                        r_ = pyhf.infer.hypotest(1.0, w_.data(mdl_), mdl_, test_stat=ts_, return_expected_set=True)
+                        want = {'CLs_obs': float(r_[0]), 'CLs_exp': [float(x) for x in r_[-1]]}
+                        if not close(got, want, 1e-7):
+                            ctx.fail('C19/values', 'the emitted JSON does not carry the values the library returns', inp, got, want)
     finally:
         os.chdir(cwd)
         spy.remove()
